@@ -22,6 +22,14 @@ func init() {
 // cap (1+2+...+64 s) plus the 63 s of handshake retransmission.
 const livenessBound = 400 * time.Second
 
+func (scTCPAB) NeutralISS(raw json.RawMessage) json.RawMessage {
+	var c ABCfg
+	json.Unmarshal(raw, &c)
+	c.ISSMid = true
+	b, _ := json.Marshal(c)
+	return b
+}
+
 func (scTCPAB) GenCfg(rng *sim.Rand, tier, prop, variant string) json.RawMessage {
 	c := GenABCfg(rng, tier, prop)
 	if prop == "C02" {
@@ -122,7 +130,7 @@ func (scTCPAB) Run(t *testing.T, prop string, seed uint64, cfgRaw json.RawMessag
 		if w.Viol == nil && prop == "C02" && !w.stormed {
 			w.Final(livenessBound)
 		}
-		if prop != "C02" && w.Viol != nil && !isStreamClass(w.Viol.Class) {
+		if prop != "C02" && prop != "C06" && w.Viol != nil && !isStreamClass(w.Viol.Class) {
 			w.Viol = nil
 		}
 		if trace {
